@@ -87,12 +87,13 @@ Proof.
 Qed.
 
 (* ------------------------------------------------------------------ the listing of latest_timestamp_file *)
-Lemma qf_num_kname off c e k : in_years e (fst k) ->
-  qf off (fsfx (c_spec c)) (fixed0 c) IFNum (fsfx (c_spec c)) (kname c e k) = true.
+(* (the listing filters with the time-stamp parser, as the other listings of the time-stamp namings do; before the repair
+   of the code it was the - then lax - number filter: qf_num_kname) *)
+Lemma qf_ts_kname off c e k : in_years e (fst k) ->
+  qf off (fsfx (c_spec c)) (fixed0 c) (IFTs std_fmt) (fsfx (c_spec c)) (kname c e k) = true.
 Proof.
   intros Y. unfold qf. rewrite (family_is_candidate (c_spec c) (fixed0 c) (kname c e k) (tsx e (fst k))).
-  - destruct (tsx_second e _ Y) as [d [r [E D]]]. pose proof (tsx_length e _ Y) as L. rewrite E in *.
-    destruct r as [|x r]; [discriminate L|]. cbn [filter_infix]. unfold r_char. rewrite D. reflexivity.
+  - cbn [filter_infix]. rewrite (parse_tsx e _ Y). reflexivity.
   - apply family_plain_alt. exists (ktail (snd k)). split; [apply ktail_restart_part|].
     split; [apply tsx_nonempty; exact Y|]. split; [exact (tsx_no_dot e _ Y)|].
     rewrite kname_shape by exact Y. fold (sfxs (c_spec c)). rewrite <- !app_assoc. reflexivity.
@@ -128,14 +129,14 @@ Proof.
   pose proof (tsdinv_dir _ _ _ _ _ _ _ I) as [Din Don].
   unfold latest_timestamp_file, with_listing. rewrite tick_quiet by assumption.
   rewrite (fixed_of_fixed0 c w Hts), filter_files_total.
-  set (files := filter (qf (woff w) (fsfx (c_spec c)) (fixed0 c) IFNum (fsfx (c_spec c)))
+  set (files := filter (qf (woff w) (fsfx (c_spec c)) (fixed0 c) (IFTs std_fmt) (fsfx (c_spec c)))
                        (related_files (wfs w) (fsfx (c_spec c)) (fixed0 c))).
   assert (A : forall x, In x files -> exists k, In k keys /\ x = kname c e k).
   { intros x Ix. apply filter_In in Ix. destruct Ix as [Ix _]. apply related_files_in in Ix. destruct Ix as [Id _].
     apply dir_names_lookup in Id. destruct Id as [j Lj]. destruct (Hon x j Lj) as [i [Hi ->]].
     exists (nth i keys kd). split; [apply nth_In; lia | reflexivity]. }
   assert (B : forall k, In k keys -> In (kname c e k) files).
-  { intros k Ik. apply filter_In. split; [|apply qf_num_kname; apply Yk; exact Ik].
+  { intros k Ik. apply filter_In. split; [|apply qf_ts_kname; apply Yk; exact Ik].
     destruct (Din k Ik) as [j [Lj Pd]]. apply related_files_in. split; [apply dir_names_lookup; eauto|]. split.
     - unfold is_reg_file, file_of. rewrite Lj, Pd. reflexivity.
     - rewrite kname_shape by (apply Yk; exact Ik). apply is_prefix_under. }
